@@ -547,3 +547,17 @@ func (c *Ctx) edgeFeasible(fn *ssa.Function, pred, succ *ssa.BasicBlock) bool {
 	cs, known := pc.through(pred, succ, 0)
 	return !known || len(cs) > 0
 }
+
+// valueOfTerm: an SSA value of fn whose term is t (the first in block order), or nil.
+func (c *Ctx) valueOfTerm(fn *ssa.Function, t string) ssa.Value {
+	var out ssa.Value
+	instrs(fn, func(in ssa.Instruction) {
+		if out != nil {
+			return
+		}
+		if v, ok := in.(ssa.Value); ok && c.term(fn, v) == t {
+			out = v
+		}
+	})
+	return out
+}
